@@ -37,10 +37,12 @@ Print Assumptions C05_apply.
    differs from the one remembered, dispatched by the real loop (C05_takes_effect) against ANY well-formed table [fs]
    and ANY state [c] of that PID's section chain (whatever earlier transmissions left behind):
    - every PID the new version lists is afterwards handled by the handler the application built from the request
-     naming that PID, its stream type and the owning program map (the last entry wins when a PID is listed twice);
+     naming that PID, its stream type and the owning program map (the last entry wins when a PID is listed twice); the
+     request also carries what the application noted of the PmtSection / StreamInfo it was handed ([pmt_obs]: the PCR PID,
+     or every accessor's value when deep = true);
    - every PID the previous version of this map had installed and the new one drops has no handler any more;
    - every other PID is untouched; the change is in force for the very next packet (the queue is empty again). *)
-Theorem C05_pmt_version_routes : forall policy scripts fs cx i pk P s (c : chain pmt_state) poff S rest v,
+Theorem C05_pmt_version_routes : forall policy scripts deep fs cx i pk P s (c : chain pmt_state) poff S rest v,
   wf fs -> cx_changes cx = nil -> pkt_pid pk = Ok P -> filters_get fs P = Some (HPmt s c) -> unflagged pk ->
   pkt_payload pk = Ok (Some (poff, 0 :: S ++ rest)) -> pkt_payload_unit_start_indicator pk = Ok true ->
   intact_section S rest 2 v -> dd_last_version c <> Some v ->
@@ -49,13 +51,13 @@ Theorem C05_pmt_version_routes : forall policy scripts fs cx i pk P s (c : chain
   let body := sect_body S in
   let ss := pmt_streams_of body in
   exists fs' c' ev,
-    spec_packet policy scripts false false fs cx (i, pk) =
+    spec_packet policy scripts false deep fs cx (i, pk) =
       Ok (fs', {| cx_changes := nil; cx_serial := cx_serial cx + N.of_nat (length ss) |}, ev) /\
     wf fs' /\ dd_last_version c' = Some v /\
     forall p,
       let lst := existsb (fun d => p =? s_elementary_pid (si_data d)) ss in
       (lst = true -> exists k st, nth_error ss k = Some st /\ s_elementary_pid (si_data st) = p /\
-         filters_get fs' p = Some (mk_handler (policy (RqByStream (pmt_pid ps) (s_stream_type (si_data st)) p (s_pcr_pid body :: nil)))
+         filters_get fs' p = Some (mk_handler (policy (RqByStream (pmt_pid ps) (s_stream_type (si_data st)) p (pmt_obs deep body st)))
                                               (cx_serial cx + N.of_nat k))) /\
       (lst = false -> bs_mem p (pmt_registered ps) = true -> filters_get fs' p = None) /\
       (lst = false -> bs_mem p (pmt_registered ps) = false -> filters_get fs' p = filters_get (set_slot fs P (Some (HPmt s c'))) p).
@@ -63,7 +65,7 @@ Proof. exact pmt_version_routes. Qed.
 Print Assumptions C05_pmt_version_routes.
 
 (* the same for a PAT version: program-map PIDs requested with the announced program number, network entries as NIT PIDs *)
-Theorem C05_pat_version_routes : forall policy scripts fs cx i pk P s (c : chain pat_state) poff S rest v,
+Theorem C05_pat_version_routes : forall policy scripts deep fs cx i pk P s (c : chain pat_state) poff S rest v,
   wf fs -> cx_changes cx = nil -> pkt_pid pk = Ok P -> filters_get fs P = Some (HPat s c) -> unflagged pk ->
   pkt_payload pk = Ok (Some (poff, 0 :: S ++ rest)) -> pkt_payload_unit_start_indicator pk = Ok true ->
   intact_section S rest 0 v -> dd_last_version c <> Some v ->
@@ -71,7 +73,7 @@ Theorem C05_pat_version_routes : forall policy scripts fs cx i pk P s (c : chain
   let ps := in_state c in
   let progs := s_pat (sect_body S) in
   exists fs' c' ev,
-    spec_packet policy scripts false false fs cx (i, pk) =
+    spec_packet policy scripts false deep fs cx (i, pk) =
       Ok (fs', {| cx_changes := nil; cx_serial := cx_serial cx + N.of_nat (length progs) |}, ev) /\
     wf fs' /\ dd_last_version c' = Some v /\
     forall p,
